@@ -23,7 +23,7 @@ from vlib import gen
 from vlib.oracles import model as M
 
 ID = "C13"
-TECHNIQUE = "runtime monitoring: return values of call_posterior_haplotypes and of the GT/GP label helpers on generated posteriors, and the locus data + record line left by the real assemble call_sample_genotypes driven in-process with stub traces; independent occurrence/dosage oracle with exact rational thresholds"
+TECHNIQUE = "runtime monitoring: return values of call_posterior_haplotypes and of the GT/GP label helpers on generated posteriors, and the locus data + record line left by the real assemble call_sample_genotypes driven in-process with stub traces; independent occurrence/dosage oracle with exact rational thresholds; wide loci with 130-300 listed alleles"
 LEVEL = "exploration"
 LEVEL_TEXT = (
     "Exploration: on generated collections of 1-5 per-sample posteriors (ploidy 1-6, 1-5 sites, 1-8 distinct genotypes over a "
@@ -45,6 +45,7 @@ RULE = (
     "hand-made locus with stub traces; non-trivial = at least two distinct haplotypes and at least one haplotype whose "
     "listing is decided (outside the ambiguity band); distinct by hash of the full case"
 )
+LEVEL_TEXT += ' One program-level case per shard lists 130-300 ALT alleles (allele numbers beyond int8 / uint8).'
 ASSUMPTIONS = [
     "haplotypes are int8 arrays as produced by the assemble sampler",
     "a haplotype that occurs in no posterior is outside the iff (threshold 0 vs occurrence 0 is treated as ambiguous)",
